@@ -1,15 +1,14 @@
 SPECIFICATION Spec
-CONSTANTS DataPlane = "off"
+CONSTANTS DataPlane = "router"
           N = 3
-          MaxTime = 17
-          Silent = 0
-          FaultKind = "lossy"
+          MaxTime = 8
+          Silent = 2
+          FaultKind = "silent"
           DialKind = "reconnect"
           MAX_RETRIES <- McRetries
           LINGER <- McLinger
           OWN_RESET <- McOwnReset
 INVARIANT NodeInvariants
-INVARIANT ClaimsAreLastAnnouncement
-INVARIANT OwnNeverDialled
-INVARIANT RecoversBy
+INVARIANT CacheOK
+INVARIANT RouterDataOK
 CHECK_DEADLOCK FALSE
